@@ -80,6 +80,9 @@ type Case struct {
 	Zsh      bool   `json:"zsh,omitempty"`
 	CompLine string `json:"compline,omitempty"`
 	Tag      string `json:"tag,omitempty"`
+	// getoptions.Writer fails: 1 = every Write returns an error, 2 = short writes (one byte, no error … then an
+	// error).  What Parse / Dispatch return must not depend on it; texts written are not compared then.
+	BadWriter int `json:"badwriter,omitempty"`
 	// SetValue(name, values...) calls made on the object of handle H after a successful Parse, before the
 	// option values are read (and before Dispatch)
 	SetVals []SetVal `json:"setvals,omitempty"`
